@@ -72,7 +72,7 @@ func workerArgs(ph Phase, verifDir string) []string {
 func workerEnv(ph Phase) []string {
 	env := []string{"GOMAXPROCS=2", "GOGC=100"}
 	if ph.Race {
-		env = append(env, "GORACE=halt_on_error=1 history_size=3")
+		env = append(env, "GORACE=halt_on_error=1 history_size=7")
 	}
 	return env
 }
